@@ -52,4 +52,27 @@ theorem moralLinks_complete (G : MG α) (x y n : α) (hn : n ∈ G.nodes) (hx : 
   · exact Or.inl ⟨n, hn, h⟩
   · exact Or.inr ⟨n, hn, h⟩
 
+theorem nodup_parents (G : MG α) (hd : G.di.Nodup) (n : α) : (G.parents n).Nodup := by
+  unfold parents
+  refine List.Nodup.map_on ?_ (hd.filter _)
+  intro x hx y hy hxy
+  simp only [List.mem_filter, decide_eq_true_eq] at hx hy
+  exact Prod.ext hxy (hx.2.trans hy.2.symm)
+
+omit [DecidableEq α] in
+theorem mem_pairs_ne (l : List α) (hl : l.Nodup) (x y : α) (h : (x, y) ∈ pairs l) : x ≠ y := by
+  induction l with
+  | nil => simp [pairs] at h
+  | cons a l ih =>
+    rw [List.nodup_cons] at hl
+    simp only [pairs, List.mem_append, List.mem_map, Prod.mk.injEq] at h
+    rcases h with ⟨b, hb, rfl, rfl⟩ | h
+    · exact fun e => hl.1 (e ▸ hb)
+    · exact ih hl.2 h
+
+theorem moralLinks_ne (G : MG α) (hd : G.di.Nodup) (x y : α) (h : (x, y) ∈ G.moralLinks) : x ≠ y := by
+  simp only [moralLinks, List.mem_flatMap] at h
+  obtain ⟨n, _, h⟩ := h
+  exact mem_pairs_ne _ (nodup_parents G hd n) x y h
+
 end Y0.MG
